@@ -105,8 +105,9 @@ class SSeq(Sym):
         self.length = length
         self.getter = getter
         self.shape = shape
-        self.psum = psum  # k -> sum of the first k elements (int sequences only)
+        self.psum = psum  # k -> sum of the first k elements (int sequences; or of measure(element))
         self.name = name
+        self.measure = None  # element -> int, when psum sums a measure of the elements
 
     def get(self, i):
         return self.getter(i)
@@ -134,13 +135,16 @@ def _summable(x):
     return x is None or V.is_num(x) or (isinstance(x, SOpt) and (x.val is None or V.is_num(x.val)))
 
 
-def fresh_seq(st, n, elem_shape, hint):
+def fresh_seq(st, n, elem_shape, hint, measure=None):
     """A fresh sequence of length n: struct-of-arrays over the element shape.
 
     Nested lists (`ListOf(ListOf(T))`, e.g. a grid of rows of cells): an element is itself an immutable
     sequence *value* (an SSeq) whose length is `f#len(i)` and whose cells are `f[](i, j)` — the leaf functions
     simply take one more index per nesting level.  Rows are held BY VALUE: the model has no aliasing between
-    rows (two slots never denote the same list object); see `RowRef` for how `grid[i].insert(...)` writes back."""
+    rows (two slots never denote the same list object); see `RowRef` for how `grid[i].insert(...)` writes back.
+
+    `measure` (optional, element -> int): the sequence carries the prefix-sum model field of
+    measure(element) instead of the elements themselves (e.g. the rows of the canvases in a list)."""
     from . import shapes as S
 
     base = st.fresh_name(hint)
@@ -200,11 +204,49 @@ def fresh_seq(st, n, elem_shape, hint):
                 return SSeq(mk_int(lf(*zs(idx))), lambda j: inner(*idx, j), shape.elem, None, name=f"{base}{path}[]")
 
             return g
+        if isinstance(shape, S.Union):
+            # elements of several structurally different shapes (size tuples of unknown arity): a tag per index
+            alts = shape.cases()
+            tag = z3.Function(f"{base}{path}#tag", *dom, z3.IntSort())
+            getters = [mk(a, f"{path}|{k}", nidx) for k, a in enumerate(alts)]
+
+            def g(*idx, tag=tag, getters=getters):
+                t = tag(*zs(idx))
+                cur().assume(z3.And(t >= 0, t < len(getters)))
+                return V.SCases([(t == k, gk(*idx)) for k, gk in enumerate(getters)])
+
+            return g
+        if isinstance(shape, S.Obj):
+            parts = {k: mk(s_, f"{path}.{k}", nidx) for k, s_ in shape.fields.items()}
+
+            def g(*idx, parts=parts, shape=shape):
+                o = SObj(shape.cls, {k: p(*idx) for k, p in parts.items()}, base_list=shape.base_list)
+                o.shape = shape
+                return o
+
+            return g
         raise Unsupported(f"sequence element shape {shape!r}")
 
     getter = mk(elem_shape, "")
     psum = None
     opt_int = isinstance(elem_shape, S.Opt) and isinstance(elem_shape.inner, S._Int)
+    if measure is not None:
+        ps = z3.Function(f"{base}$msum", z3.IntSort(), z3.IntSort())
+        inner_get = getter
+
+        def getter(i, ps=ps, inner_get=inner_get):  # noqa: F811
+            v = inner_get(i)
+            zi = zint(i)
+            cur().assume(ps(zi + 1) == ps(zi) + zint(measure(v)))
+            return v
+
+        def psum(k, ps=ps):
+            cur().assume(ps(z3.IntVal(0)) == 0)
+            return mk_int(ps(zint(k)))
+
+        r = SSeq(n, getter, elem_shape, psum, name=base)
+        r.measure = measure
+        return r
     if isinstance(elem_shape, S._Int) or opt_int:
         # prefix-sum model field; for Optional[int] elements None counts as 0
         ps = z3.Function(f"{base}$psum", z3.IntSort(), z3.IntSort())
@@ -258,12 +300,12 @@ def seq_get(s, i):
     raise Unsupported(f"index of {type(s).__name__}")
 
 
-def to_sseq(s, shape=None):
+def to_sseq(s, shape=None, measure=None):
     """View a concrete tuple/list as an SSeq."""
     if isinstance(s, SSeq):
         return s
     if isinstance(s, LRef):
-        return to_sseq(s.seq, shape)
+        return to_sseq(s.seq, shape, measure)
     if isinstance(s, SRange):
         r = SSeq(s.length, s.get, None, None, "range")
         r.range = s
@@ -279,11 +321,14 @@ def to_sseq(s, shape=None):
         return r
 
     psum = None
-    if all(_summable(x) for x in items):
+    if measure is not None or all(_summable(x) for x in items):
 
         def psum(k, items=items):
             acc = [0]
             for x in items:
+                if measure is not None:
+                    acc.append(acc[-1] + measure(x))
+                    continue
                 acc.append(acc[-1] + (x if V.is_num(x) else mk_int(_num0(x))))
             if isinstance(k, int):
                 return acc[k]
@@ -299,7 +344,9 @@ def to_sseq(s, shape=None):
             shape = shape_of(items[0])
         except Unsupported:
             shape = None
-    return SSeq(len(items), getter, shape, psum, "lit")
+    r = SSeq(len(items), getter, shape, psum, "lit")
+    r.measure = measure
+    return r
 
 
 def seq_concat(a, b):
@@ -309,7 +356,8 @@ def seq_concat(a, b):
         return a
     if isinstance(a, (tuple, list)) and not a:
         return b
-    a, b = to_sseq(a), to_sseq(b)
+    measure = getattr(a, "measure", None) or getattr(b, "measure", None)
+    a, b = to_sseq(a, measure=measure), to_sseq(b, measure=measure)
     na = a.length
     lazy = getattr(a, "lazy", False) or getattr(b, "lazy", False)
 
@@ -335,6 +383,7 @@ def seq_concat(a, b):
 
     r = SSeq(na + b.length, getter, a.shape or b.shape, psum, "cat")
     r.lazy = lazy
+    r.measure = measure
     return r
 
 
